@@ -142,6 +142,38 @@ def check_selection(col, pid, spec, d, plain, ids, tags, R, X, T, kw, rp, args, 
     return exp
 
 
+def cached_selection(col, pid, spec, d, plain, ids, kw, rp, rng):
+    """The same (valid) selection on an executor started from a cache file that holds the WHOLE DAG: nothing runs, and every
+    value is a real one - cached results are "already-computed nodes", inside and outside the selected sub-graph."""
+    import os
+    import tempfile
+
+    args = [Sym("arg", rng.randrange(1 << 30))]
+    fd, path = tempfile.mkstemp(prefix="twzsel_", suffix=".pkl")
+    os.close(fd)
+    try:
+        r0, _lg = run_executor(d, {"cache_in": path}, args)
+        if r0[0] != "ok":
+            return
+        res, log = run_executor(d, dict(kw, from_cache=path), args)
+        entered = [e["node"] for e in log if e["kind"] == "FENTER"]
+        col.evaluations += 1
+        col.counters["c12_selections_started_from_a_full_cache_file"] += 1
+        if res[0] != "ok":
+            col.violation(pid, "valid_selection_raised", dict(selection=S.jsonable(kw), from_cache="file with every result", exc=repr(res[1])[:300], source=S.render(spec)), rp)
+        elif entered:
+            col.violation(pid, "executed_set_differs_from_documented_closure", dict(
+                selection=S.jsonable(kw), from_cache="file with every result", executed=sorted(entered), closure=[], source=S.render(spec)), rp)
+        elif not same(r0[1], res[1]):
+            col.violation(pid, "returned_values_not_real_values_or_None", dict(
+                selection=S.jsonable(kw), from_cache="file with every result", expected=short(r0[1], 400), got=short(res[1], 400), source=S.render(spec)), rp)
+    finally:
+        try:
+            os.unlink(path)
+        except OSError:
+            pass
+
+
 def triples_for(spec, rng, exhaustive, limit=None):
     g = S.site_graph(spec)
     n = len(spec["nodes"])
@@ -202,8 +234,15 @@ def run_shape(col, pid, rng, n, edges, exhaustive, limit, with_setup=False, with
                 setup.add(i)
     kw_edges = {e for e in edges if rng.random() < 0.3}
     with_param = {i for i in range(n) if i not in setup and g0.in_degree(i) > 0 and rng.random() < 0.3}
+    # some sinks are debug nodes (RUN_DEBUG_NODES stays off for such shapes): they never run and yield None however they are
+    # selected; a target naming one still selects its production ancestors ("debug rules aside")
+    debug_sinks = set()
+    if not exhaustive and rng.random() < 0.3:
+        debug_sinks = {i for i in range(n) if i in unique and i not in setup and g0.out_degree(i) == 0 and g0.in_degree(i) > 0 and rng.random() < 0.6}
+        if debug_sinks:
+            col.counters["c12_shapes_with_debug_sinks_flag_off"] += 1
     spec = mk_sel_spec(n, edges, rng, setup=setup, tags=tags, with_param=with_param, kw_edges=kw_edges, keyed_returns=rng.random() < 0.5,
-                       fn_names=fn_names)
+                       fn_names=fn_names, debug=debug_sinks)
     spec["is_async"] = rng.random() < 0.25
     plain = {name: probes.mkprobe(name, shape=tuple(fs["shape"]) if fs.get("shape") else None) for name, fs in spec["fns"].items()}
     ids = S.node_ids(spec)
@@ -219,7 +258,7 @@ def run_shape(col, pid, rng, n, edges, exhaustive, limit, with_setup=False, with
     from tawazi.config import cfg as _tcfg
 
     # no debug node in these shapes: RUN_DEBUG_NODES on must not change which closure runs ("debug rules aside")
-    debug_flag_on = rng.random() < 0.25
+    debug_flag_on = rng.random() < 0.25 and not debug_sinks
     old_flag = _tcfg.RUN_DEBUG_NODES
     if debug_flag_on:
         col.counters["c12_shapes_run_with_RUN_DEBUG_NODES_on"] += 1
@@ -262,7 +301,9 @@ def run_shape(col, pid, rng, n, edges, exhaustive, limit, with_setup=False, with
         rp2 = dict(rp, triple=[R, X, T], kw=S.jsonable(kw), run_debug_nodes=debug_flag_on)
         _tcfg.RUN_DEBUG_NODES = debug_flag_on
         try:
-            exp = check_selection(col, pid, spec, d, plain, ids, tags, R, X, T, kw, rp2, args, env_values=env_values)
+            exp = check_selection(col, pid, spec, d, plain, ids, tags, R, X, T, kw, rp2, args, env_values=env_values, debug=debug_sinks)
+            if exp is not None and not setup and not debug_sinks and rng.random() < 0.12:
+                cached_selection(col, pid, spec, d, plain, ids, kw, rp2, rng)
         finally:
             _tcfg.RUN_DEBUG_NODES = old_flag
         if exp is not None and n >= 2:
@@ -402,6 +443,16 @@ def dbg_shape(col, pid, rng, n, edges):
             setup.add(i)
     spec = mk_sel_spec(n, edges, rng, setup=setup, debug=debug)
     spec["is_async"] = rng.random() < 0.25
+    if n >= 3 and rng.random() < 0.25:
+        # a block of the nodes (debug nodes included) lives in an inner DAG: selections then name prefixed ids, and a debug node
+        # inside the inner DAG may be fed by one of its parameters
+        a0 = rng.randrange(n)
+        b0 = min(n - 1, a0 + rng.randint(0, 2))
+        # (a debug result cannot be handed to an inner DAG: its argument stub is a non-debug node - tawazi rejects that, rightly)
+        ext_ok = all(j not in debug for i in range(a0, b0 + 1) for (j, _k) in S.deps_of(spec["nodes"][i]) if j < a0)
+        if ext_ok and S.nestable(spec, a0, b0, allow_debug=True):
+            spec["nest"] = {"name": "nin", "first": a0, "last": b0, "mc": 1}
+            col.counters["c13_shapes_with_a_block_written_as_inner_dag"] += 1
     plain = {name: probes.mkprobe(name) for name in spec["fns"]}
     ids = S.node_ids(spec)
     rp = {"kind": "dbg_case", "n": n, "edges": edges, "spec": spec, "source": S.render(spec), "debug": sorted(debug)}
